@@ -10,7 +10,7 @@
 #include <stdlib.h>
 _Bool nondet_bool(void);
 int nondet_int(void);
-#define B64_MAXLEN 0x5ffffff0
+#define B64_MAXLEN 0x5ffffffd
 /* units may bound the decoded length they consider (a stated bound, e.g. oct keys of at most 16 MiB) */
 #ifndef B64_DEC_MAX
 #define B64_DEC_MAX B64_MAXLEN
